@@ -39,16 +39,42 @@ type Prog struct {
 	// All lists the same including pb (used only for call graph construction).
 	All map[*ssa.Function]bool
 
+	// Normalized: number of call sites of unknown functions expanded before analysis.
+	Normalized int
+
 	CG      *callgraph.Graph
 	CGKind  string
 	Config  string
 	srcOnce map[string][]string
 }
 
+// DefaultKnown is the known-function table used when LoadOptions.Known is nil (set by main from
+// tables/known_funcs.txt).
+var DefaultKnown map[string]bool
+
+// ReadKnown reads a known-function table (one key per line, # comments).
+func ReadKnown(path string) map[string]bool {
+	b, err := os.ReadFile(path)
+	if err != nil {
+		return nil
+	}
+	out := map[string]bool{}
+	for _, l := range strings.Split(string(b), "\n") {
+		l = strings.TrimSpace(l)
+		if l != "" && !strings.HasPrefix(l, "#") {
+			out[l] = true
+		}
+	}
+	return out
+}
+
 // LoadOptions configures Load.
 type LoadOptions struct {
 	Dir     string
 	Overlay map[string][]byte
+	// Known: keys of the functions the rules were confirmed against (tables/known_funcs.txt). When
+	// set, call sites of functions outside this table are expanded before analysis (normalize.go).
+	Known map[string]bool
 	Env     []string // extra env (e.g. GOARCH=386)
 	VTA     bool
 }
@@ -59,32 +85,60 @@ func Load(o LoadOptions) (*Prog, error) {
 	env := append(os.Environ(),
 		"GOFLAGS=-mod=mod", "GOPROXY=off", "GOSUMDB=off", "GOTOOLCHAIN=local", "GOWORK=off")
 	env = append(env, o.Env...)
-	fset := token.NewFileSet()
-	cfg := &packages.Config{
-		Mode:    packages.LoadSyntax,
-		Dir:     o.Dir,
-		Fset:    fset,
-		Env:     env,
-		Tests:   false,
-		Overlay: o.Overlay,
-	}
-	pkgs, err := packages.Load(cfg, "./...")
-	if err != nil {
-		return nil, fmt.Errorf("packages.Load: %v", err)
-	}
-	if len(pkgs) == 0 {
-		return nil, fmt.Errorf("packages.Load: zero packages loaded from %s", o.Dir)
-	}
-	var errs []string
-	packages.Visit(pkgs, nil, func(p *packages.Package) {
-		for _, e := range p.Errors {
-			errs = append(errs, e.Error())
+	loadWith := func(ov map[string][]byte) (*token.FileSet, []*packages.Package, error) {
+		fset := token.NewFileSet()
+		cfg := &packages.Config{
+			Mode:    packages.LoadSyntax,
+			Dir:     o.Dir,
+			Fset:    fset,
+			Env:     env,
+			Tests:   false,
+			Overlay: ov,
 		}
-	})
-	if len(errs) > 0 {
-		return nil, fmt.Errorf("load/type errors: %s", strings.Join(errs, "; "))
+		pkgs, err := packages.Load(cfg, "./...")
+		if err != nil {
+			return nil, nil, fmt.Errorf("packages.Load: %v", err)
+		}
+		if len(pkgs) == 0 {
+			return nil, nil, fmt.Errorf("packages.Load: zero packages loaded from %s", o.Dir)
+		}
+		var errs []string
+		packages.Visit(pkgs, nil, func(p *packages.Package) {
+			for _, e := range p.Errors {
+				errs = append(errs, e.Error())
+			}
+		})
+		if len(errs) > 0 {
+			return nil, nil, fmt.Errorf("load/type errors: %s", strings.Join(errs, "; "))
+		}
+		return fset, pkgs, nil
 	}
-	p := &Prog{Dir: o.Dir, Fset: fset, Pkgs: pkgs, ByPath: map[string]*packages.Package{},
+	fset, pkgs, err := loadWith(o.Overlay)
+	if err != nil {
+		return nil, err
+	}
+	normalized := 0
+	if o.Known == nil {
+		o.Known = DefaultKnown
+	}
+	if len(o.Known) > 0 {
+		// only when the tree has functions outside the table
+		unknown := false
+		for _, k := range KnownFuncs(pkgs) {
+			if !o.Known[k] {
+				unknown = true
+			}
+		}
+		if unknown {
+			ov, n := Normalize(o.Known, o.Overlay, loadWith)
+			if n > 0 {
+				if f2, p2, err2 := loadWith(ov); err2 == nil {
+					fset, pkgs, normalized = f2, p2, n
+				}
+			}
+		}
+	}
+	p := &Prog{Dir: o.Dir, Fset: fset, Pkgs: pkgs, Normalized: normalized, ByPath: map[string]*packages.Package{},
 		SSAPkg: map[string]*ssa.Package{}, All: map[*ssa.Function]bool{}, srcOnce: map[string][]string{}}
 	for _, pk := range pkgs {
 		p.ByPath[pk.PkgPath] = pk
